@@ -18,6 +18,8 @@ type GenCfg struct {
 	SRIDMode  int      // 0 none, 1 interesting values
 	MixLayout bool     // collection members may differ in layout
 	ClosedRings bool   // rings are closed with >= 4 points when non-empty
+	ExactParts  int    // when > 0: most part lists have exactly this many parts (count classes around powers of two)
+	ExactCoords int    // when > 0: most coordinate lists have exactly this many coordinates
 }
 
 // SwarmCfg draws a generator configuration.
@@ -32,6 +34,22 @@ func SwarmCfg(r *prng.Rand, layouts []int) GenCfg {
 		FloatMode: r.Intn(3),
 		SRIDMode:  r.Intn(2),
 		MixLayout: r.Chance(0.5),
+	}
+	// count classes: thresholds in the library (pooled rows, unrolled or
+	// block-wise loops) sit at or next to powers of two
+	classes := []int{7, 8, 9, 15, 16, 17, 31, 32, 33}
+	switch r.Pick(89, 6, 5) {
+	case 1:
+		c.ExactParts = classes[r.Intn(len(classes))]
+		c.MaxParts = c.ExactParts
+		c.PEmpty /= 4
+		c.MaxCoords = min(c.MaxCoords, 3)
+		c.MaxDepth = min(c.MaxDepth, 1)
+	case 2:
+		c.ExactCoords = append(classes, 63, 64, 65)[r.Intn(len(classes)+3)]
+		c.MaxCoords = c.ExactCoords
+		c.MaxParts = min(c.MaxParts, 2)
+		c.MaxDepth = min(c.MaxDepth, 1)
 	}
 	if r.Chance(0.3) {
 		// restrict the type set for this run
@@ -98,6 +116,9 @@ func (c GenCfg) coords(r *prng.Rand, l int, ring bool) []Coord {
 		return []Coord{}
 	}
 	n := r.Range(1, max(1, c.MaxCoords))
+	if c.ExactCoords > 0 && c.ExactCoords <= c.MaxCoords && r.Chance(0.5) {
+		n = c.ExactCoords
+	}
 	out := make([]Coord, 0, n+1)
 	for i := 0; i < n; i++ {
 		out = append(out, c.coord(r, l))
@@ -111,9 +132,21 @@ func (c GenCfg) coords(r *prng.Rand, l int, ring bool) []Coord {
 	return out
 }
 
+// small is the configuration for the levels below the one a count class
+// applies to.
+func (c GenCfg) small() GenCfg {
+	c.ExactParts, c.ExactCoords = 0, 0
+	c.MaxParts = min(c.MaxParts, 2)
+	c.MaxCoords = min(c.MaxCoords, 3)
+	return c
+}
+
 func (c GenCfg) nparts(r *prng.Rand) int {
 	if r.Chance(c.PEmpty / 2) {
 		return 0
+	}
+	if c.ExactParts > 0 && c.ExactParts <= c.MaxParts && r.Chance(0.6) {
+		return c.ExactParts
 	}
 	return r.Range(1, max(1, c.MaxParts))
 }
@@ -171,8 +204,18 @@ func (c GenCfg) Gen(r *prng.Rand, t string, l int, depth int) *Geom {
 	case MPg:
 		n := c.nparts(r)
 		m.P = make([][][]Coord, 0, n)
+		in := c
+		if c.ExactParts > 0 {
+			// a count class applies at one level: many polygons of few rings,
+			// or few polygons of many rings
+			if r.Chance(0.5) {
+				in = c.small()
+			} else {
+				n = min(n, 2)
+			}
+		}
 		for i := 0; i < n; i++ {
-			k := c.nparts(r)
+			k := in.nparts(r)
 			rings := make([][]Coord, 0, k)
 			for j := 0; j < k; j++ {
 				rings = append(rings, c.coords(r, l, true))
@@ -184,6 +227,16 @@ func (c GenCfg) Gen(r *prng.Rand, t string, l int, depth int) *Geom {
 		if depth >= c.MaxDepth {
 			n = min(n, 2)
 		}
+		in := c
+		if c.ExactParts > 0 || c.ExactCoords > 0 {
+			// a count class applies at one level: many small members, or few
+			// members that are large themselves
+			if c.ExactParts > 0 && r.Chance(0.5) {
+				in = c.small()
+			} else {
+				n = min(n, 2)
+			}
+		}
 		for i := 0; i < n; i++ {
 			ct := c.Types[r.Intn(len(c.Types))]
 			if ct == GC && depth >= c.MaxDepth {
@@ -193,7 +246,7 @@ func (c GenCfg) Gen(r *prng.Rand, t string, l int, depth int) *Geom {
 			if c.MixLayout && r.Chance(0.4) {
 				cl = c.Layouts[r.Intn(len(c.Layouts))]
 			}
-			m.G = append(m.G, c.Gen(r, ct, cl, depth+1))
+			m.G = append(m.G, in.Gen(r, ct, cl, depth+1))
 		}
 		// A fixed layout is only legal when every member has it.
 		same := true
@@ -234,6 +287,18 @@ func (c GenCfg) Big(r *prng.Rand, l int) *Geom {
 		return &Geom{T: MPt, L: l, P: [][][]Coord{pts}}
 	}
 	return &Geom{T: Pg, L: l, P: [][][]Coord{{cs, {}}}}
+}
+
+// DecorateSRIDs gives the geometry and, recursively, the members of collections
+// an SRID each with probability p, from a small set so that equal and unequal
+// pairs both occur (metadata that most operations must not look at).
+func DecorateSRIDs(r *prng.Rand, m *Geom, p float64) {
+	if r.Chance(p) {
+		m.S = []int{4326, 3857, 1, 4326, -1}[r.Intn(5)]
+	}
+	for _, c := range m.G {
+		DecorateSRIDs(r, c, p)
+	}
 }
 
 // GenAny draws a geometry of a random allowed type and layout, with an SRID on
